@@ -244,6 +244,69 @@ def mps_fill_results(n_total, d, chi):
     return fn
 
 
+def exact_zip_right(T):
+    """zip_right (MPO @ MPO through QR sweeps and an eigh/SVD truncation: LAPACK) replaced by the exact,
+    uncompressed product of the factors.  Contract assumed of the real one: it returns factors of the
+    product operator (within the truncation precision)."""
+
+    def zip_right(top_factors, bottom_factors, precision=None, max_bond_dim=None):
+        out = []
+        for A, B in zip(top_factors, bottom_factors):
+            C = T.tensordot(A, B, dims=([2], [1]))  # (a, o, b, e, i, f)
+            C = C.permute(0, 3, 1, 4, 2, 5)
+            out.append(C.reshape(A.shape[0] * B.shape[0], A.shape[1], B.shape[2], A.shape[3] * B.shape[3]))
+        return out
+
+    return zip_right
+
+
+def mps_energy_moments_sequence(n, d, chi):
+    """energy variance / second moment of the MPS backend over a *sequence*: the same MPO object is
+    updated in place between two evaluations (what update_H does every time step) and every
+    evaluation must use H^2 of the Hamiltonian of its own time."""
+
+    def fn(env):
+        T = env.torch
+        mpo_mod = env.mod("emu_mps.mpo")
+        mps_mod = env.mod("emu_mps.mps")
+        hm = env.mod("emu_mps.hamiltonian")
+        cbm = env.mod("emu_mps.custom_callback_implementations")
+        HT = env.mod("emu_base").HamiltonianType
+        dims = [1] + [chi] * (n - 1) + [1]
+        factors = [env.tensor_cplx(f"A{k}", (dims[k], d, dims[k + 1])) for k in range(n)]
+        eig = ["r", "g"] if d == 2 else ["g", "r", "x"]
+        state = mps_mod.MPS([f.clone() for f in factors], orthogonality_center=0, num_gpus_to_use=0, eigenstates=eig)
+        psi = refs.contract_mps(T, factors)
+        U = env.sym_matrix("U", n)
+        H = hm.make_H(interaction_matrix=U, hamiltonian_type=HT.Rydberg, dim=d, num_gpus_to_use=0)
+        noise = T.zeros(d, d, dtype=T.complex128)
+        saved = mpo_mod.zip_right
+        mpo_mod.zip_right = exact_zip_right(T)
+        try:
+            for step in range(2):
+                om = env.tensor_real(f"omega{step}", (n,), dtype=T.complex128)
+                de = env.tensor_real(f"delta{step}", (n,), dtype=T.complex128)
+                ph = T.zeros(n, dtype=T.complex128)
+                hm.update_H(H, om, de, ph, noise)
+                ref_step = 0 if env.mutant("stale_hamiltonian") else step
+                om_r = env.tensor_real(f"omega{ref_step}", (n,), dtype=T.complex128) if ref_step != step else om
+                de_r = env.tensor_real(f"delta{ref_step}", (n,), dtype=T.complex128) if ref_step != step else de
+                Hd = refs.dense_rydberg(T, om_r, de_r, ph, U, n, d)
+                e1 = T.vdot(psi, Hd @ psi)
+                e2 = T.vdot(psi, Hd @ (Hd @ psi))
+                m = cbm.energy_second_moment_mps_impl(None, config=None, state=state, hamiltonian=H)
+                v = cbm.energy_variance_mps_impl(None, config=None, state=state, hamiltonian=H)
+                e = cbm.energy_mps_impl(None, config=None, state=state, hamiltonian=H)
+                env.check_eq(e, e1.real, f"evaluation {step}: energy = <psi|H(t_{step})|psi>")
+                env.check_eq(m, e2.real, f"evaluation {step}: energy second moment = <psi|H(t_{step})^2|psi>")
+                env.check_eq(v, (e2 - e1 * e1).real, f"evaluation {step}: energy variance = <H^2> - <H>^2 at t_{step}")
+        finally:
+            mpo_mod.zip_right = saved
+
+    return fn
+
+
+
 def rot(T, c, s):
     """real rotation [[c,-s],[s,c]] as a complex tensor"""
     return T.stack([T.stack([c, -s]), T.stack([s, c])]).to(T.complex128)
@@ -362,7 +425,7 @@ META = {
         "to callbacks are the normalised state with dark atoms in |g> and H x identity."
     ),
     "outside": [
-        "MPS occupation/correlation (QR walk), MPS variance/second moment (zip-up with QR/eigh), entanglement entropy (SVD), fidelity/expectation (Pulser code)",
+        "MPS occupation/correlation through multi-column QR beyond the chi=2 known-factorisation cases; the zip-up compression inside MPO@MPO (QR/eigh): MPS variance/second moment are decided with zip_right replaced by the exact uncompressed product; entanglement entropy (SVD), fidelity/expectation (Pulser code)",
         "variance >= 0 (Cauchy-Schwarz; z3 unknown beyond one qubit)",
         "N > 3 (state vector) / 2 (density matrix) / 4 register atoms (MPS padding)",
         "MPS.norm() is the norm of the declared centre tensor; that it equals the state norm needs canonical form (C10, outside)",
@@ -389,6 +452,25 @@ def cases(tier):
     for n, k in ([(1, 1), (2, 1)] if q else [(1, 2), (2, 0), (2, 2)]):
         out.append(
             Case(f"dm_obs_n{n}_ops{k}", dm_observables(n, k), covers=COVERS_SV, bounds={"qubits": n, "jump_ops": k}, canaries=["shifted_site"] if n > 1 else [], weight=16**n, timeout_ms=60000)
+        )
+    for n, d, chi in ([(2, 2, 1)] if q else [(2, 2, 2), (3, 2, 1), (2, 3, 1)]):
+        out.append(
+            Case(
+                f"mps_energy_moments_sequence_n{n}_d{d}_chi{chi}",
+                mps_energy_moments_sequence(n, d, chi),
+                covers=[
+                    ("emu_mps/custom_callback_implementations.py", "energy_variance_mps_impl"),
+                    ("emu_mps/custom_callback_implementations.py", "energy_second_moment_mps_impl"),
+                    ("emu_mps/custom_callback_implementations.py", "energy_mps_impl"),
+                    ("emu_mps/mpo.py", "MPO.__matmul__"),
+                    ("emu_mps/mpo.py", "MPO.expect"),
+                    ("emu_mps/hamiltonian.py", "update_H"),
+                ],
+                bounds={"atoms": n, "dim": d, "chi": chi, "evaluations": 2, "between evaluations": "update_H in place with fresh symbolic drives", "zip_right": "stub: exact uncompressed product"},
+                canaries=["stale_hamiltonian"],
+                weight=(d**n) ** 2 * 4,
+                timeout_ms=60000,
+            )
         )
     for side in ("left", "right"):
         out.append(
